@@ -69,6 +69,15 @@ pub(crate) mod verif_c {
         let s = String::from_utf8(a.to_vec()).unwrap();
         rt::<String>(s, Some(6));
     }
+    /// a string with a multi-byte character: the length prefix counts bytes, not characters
+    #[kani::proof]
+    fn p3_string_non_ascii() {
+        let a: u8 = kani::any();
+        kani::assume(a < 0x80);
+        // "é" (2 bytes) followed by one arbitrary ASCII byte
+        let s = unsafe { String::from_utf8_unchecked(vec![0xC3, 0xA9, a]) };
+        rt::<String>(s, Some(7));
+    }
     #[kani::proof]
     fn p3_u64ed() {
         rt::<U64ED>(U64ED::from(kani::any::<u64>()), Some(8));
@@ -116,6 +125,22 @@ pub(crate) mod verif_c {
     }
 
     // ---- P4: a < b <=> enc(a) <lex enc(b) ---------------------------------------------------
+    /// storage keys of one account order like their slots (U512ED::from_addr_u256 is the key of the
+    /// storage table); slots differing in any byte position
+    #[kani::proof]
+    fn p4_order_storage_key() {
+        use alloy::primitives::{Address, U256};
+        let addr = Address::repeat_byte(7);
+        let a: [u64; 4] = kani::any();
+        let b: [u64; 4] = kani::any();
+        let (sa, sb) = (U256::from_limbs(a), U256::from_limbs(b));
+        let ka = U512ED::from_addr_u256(addr, sa).unwrap().encode_vec();
+        let kb = U512ED::from_addr_u256(addr, sb).unwrap().encode_vec();
+        assert!((sa < sb) == (ka.as_slice() < kb.as_slice()));
+        kani::cover!(sa < sb);
+        core::mem::forget(ka);
+        core::mem::forget(kb);
+    }
     #[kani::proof]
     fn p4_order_u64() {
         let a: u64 = kani::any();
